@@ -479,6 +479,14 @@ func (r *c08Run) buildNetwork(cc *clusterChannels) error {
 			n.secondBobChannelLink.EligibleToForward() && n.carolChannelLink.EligibleToForward() {
 			return nil
 		}
+		// a planned cut hit during channel_reestablish: the links can not
+		// become eligible before the next restart.
+		r.mu.Lock()
+		cut := r.cut["AB"] || r.cut["BC"]
+		r.mu.Unlock()
+		if cut {
+			return nil
+		}
 		time.Sleep(10 * time.Millisecond)
 	}
 	return fmt.Errorf("links not eligible")
@@ -1244,9 +1252,9 @@ func TestVerifC08(t *testing.T) {
 		seed = 1
 	}
 	tier := os.Getenv("VERIF_TIER")
-	ncases, workers := 64, 6
+	ncases, workers := 100, 6
 	if tier == "thorough" {
-		ncases, workers = 900, 6
+		ncases, workers = 1800, 6
 	}
 	if v, err := strconv.Atoi(os.Getenv("VERIF_C08_CASES")); err == nil && v > 0 {
 		ncases = v
